@@ -68,7 +68,13 @@ class _RedisConsumer(ConsumerT):
         await asyncio.gather(*rejects)
 
     async def consume(self) -> tuple[RoutingKeyT, str, ParametersT]:
-        return await self.queue.get()
+        while True:
+            key, payload, params = await self.queue.get()
+            # the message has waited in the local queue: its ttl may have run out in the meantime
+            if params.is_overdue and self.category != MessageCategory.DEAD:
+                await self.broker.nack(key)
+                continue
+            return key, payload, params
 
     async def backgroud_consume(self) -> None:
         while True:
